@@ -113,9 +113,8 @@ def _spin_f(env, kern, X1, Xc, al, g, nctrl):
     return sum(((kaa[g, a] * kbb[g, a] + kab[g, a] * kba[g, a]) * al[a] for a in range(nctrl)), env.const(0))
 
 
-def h_spin(env, n=1, nctrl=2):
+def h_spin(env, n=1, nctrl=2, nf=2):
     xe, K = env.m.xc_evaluator, env.m.kernels
-    nf = 2
     X1 = env.arr("X1", (2, n, nf), lo="-4", hi="4")
     Xc = env.arr("Xc", (2, nctrl, nf), lo="-4", hi="4")
     al = env.arr("alpha", (nctrl,), lo="-4", hi="4")
@@ -311,6 +310,10 @@ def tasks(tier):
         out.append(Task("spin/n2", h_spin, dict(n=2), mods="kernels"))
     out.append(Task("antisym", h_antisym, {}, mods="kernels"))
     out.append(Task("spin", h_spin, {}, mods="kernels"))
+    # smallest sizes: stay decidable when the C gains data-dependent branches (every branch multiplies the paths and puts a quadratic
+    # condition into every query; at nf = nctrl = 2 such queries time out)
+    out.append(Task("spin/smallest", h_spin, dict(n=1, nctrl=1, nf=1), mods="kernels", max_paths=64))
+    out.append(Task("rbf/const*full/smallest", h_rbf, dict(kind="const*full", n=1, nctrl=1, ntot=1), mods="kernels", max_paths=64))
     out.append(Task("spin/n3", h_spin, dict(n=3), mods="kernels"))
     out.append(Task("spin_v2_raw", h_spin_v2_raw, {}, mods="kernels"))
     out.append(Task("linear", h_linear, {}, mods="kernels"))
